@@ -35,8 +35,8 @@ func runC01(c *Ctx, r *Report) {
 	loopsComplete(c, r, "R-C01.9", func(fn *Fn) bool {
 		return rootNamed(fn, "Join", "difference", "FindHeads", "NewOrderedMapFromEntries", "Merge", "Copy", "Slice", "Keys") || inPkgs(c.P, fn, "entry/sorting")
 	}, "part of the candidates, links or heads is left out of the merge, so the result depends on what was left out — replicas that merged in another order disagree")
-	r.Doc("R-C01.11", "the head computation two replicas must agree on: the head scan, the predecessor index a log starts with, and the walk from the read heads (adopted from C02)")
-	importRules(c, r, "C02", []string{"R-C02.1", "R-C02.4", "R-C02.10"}, "R-C01.11")
+	r.Doc("R-C01.11", "the head computation two replicas must agree on: the head scan, the predecessor index a log starts with, the walk from the read heads, and Append reading and replacing the heads in one critical section (adopted from C02)")
+	importRules(c, r, "C02", []string{"R-C02.1", "R-C02.2", "R-C02.4", "R-C02.10"}, "R-C01.11")
 	r.Doc("R-C01.12", "the orderings the linearisation relies on are lawful orders (adopted from C19: replicas only expose the same sequence under a strict total order)")
 	importRules(c, r, "C19", []string{"R-C19.0", "R-C19.1", "R-C19.2", "R-C19.3", "R-C19.4", "R-C19.6"}, "R-C01.12")
 	r.Doc("R-C01.10", "entries are filed in the entry index under their own hash and in the predecessor index under their own predecessor links (a link index fed from references, or from another list, makes head filtering depend on merge order)")
